@@ -16,7 +16,7 @@ for line in open(resfile):
 assert res, 'no seedcheck result'
 assert res['demo_clean_rc'] == 0 and res['demo_patched_rc'] == 1, res
 assert res['tests'].startswith('307 passed'), res
-dst = os.path.join(HERE, 'seeded', '%s-%s' % (pid, n))
+dst = os.path.join(HERE, 'seeded', '%s-%d' % (pid, int(n) + int(os.environ.get('SEED_OFFSET', '0'))))
 os.makedirs(dst, exist_ok=True)
 for f in ('patch.diff', 'demo.py', 'notes.md'):
   shutil.copy(os.path.join(root, n, f), os.path.join(dst, f))
